@@ -386,7 +386,7 @@ CHECKS["C12"] = {
             "inside its critical section; all queries are started during the pause, the writer is released after a 3 ms grace period; a query that RETURNS during the pause must "
             "carry the pre-step answer, every query the pre- or post-step answer, none may panic, afterwards the forest answers as the sequential run. STRESS (1 of 3): 1-6 reader "
             "goroutines loop over the queries (GOMAXPROCS drawn from 1..16) while the writer runs the script, waiting a drawn number of reader operations between steps; each "
-            "result must equal the answer of a state in the window given by the step counter read before and after the call. Any data-race report, panic or RWMutex deadlock "
+            "result must equal the answer of a state in the window given by the step counter read before and after the call. SECOND WRITER (1 of 3 cases of either mode): owned - the NEXT step of the script is issued from another goroutine during the pause; it must not complete before the release, must succeed, and the forest must end in the state after both steps; stress - a second goroutine keeps calling Verify(remember=true) with honest proofs resolved in drawn states while the script runs (readers then ask only storage-independent questions), and afterwards the forest must still satisfy the reference model (roots, only true hashes stored, script-remembered leaves provable). Any data-race report, panic or RWMutex deadlock "
             "(goroutine dump) is a violation. Non-trivial: owned schedule whose site was reached with queries started during the pause, or stress run with more reader "
             "operations than queries.",
     "assumptions": COMMON_ASSUME + ["the oracle is differential (sequential vs concurrent run of the real code); whether the sequential answers are right is C01/C02/C09/C10's business",
